@@ -92,6 +92,13 @@ def run (st : St) (args : List String) : St × String :=
   match args with
   | ["sg.reset"] => ({}, "ok")
   | ["sg.conn"] => ({ st with conns := st.conns ++ [{}] }, toString st.conns.length)
+  | ["sg.observe", _] => (st, "ok")   -- statistics and tracing wrap the channel of a message: the user table is keyed by connection
+  -- a subscription whose registration fails is undone (Tie.C13 subscribe_flow: the count, the handler id, the
+  -- local handler): the connection is what it was
+  | ["sg.subfail", k] =>
+    match st.conns[k.toNat!]? with
+    | some c => if c.c.refs == 0 && c.c.op.isNone then (st, "failed") else (st, "bad-op")
+    | none => (st, "bad-op")
   | ["sg.hold", k] =>
     match st.conns[k.toNat!]? with
     | some c => (setConn st k.toNat! { c with held := true }, "ok")
